@@ -188,6 +188,114 @@ fn float_fns<'a, F: num::Float + Debug + Into<f64> + RefUnwindSafe + 'a>(exp: fn
     ]
 }
 
+/// the slice-taking estimators on *aliased* arguments: every pair of sub-slices (i..j, k..l) of one buffer.  Equal lengths:
+/// exact count/length (and 1 only where the elements agree); different lengths: the mismatch is reported even though both
+/// slices may start at the same address
+fn check_aliased<T: Copy + PartialEq + Debug + RefUnwindSafe>(ctx: &Ctx, tname: &str, alpha: &[T], fns: &[(&'static str, fn(usize, usize) -> f64, Box<dyn Fn(&[T], &[T]) -> Res + '_>)], maxlen: usize, st: &mut CStats) {
+    for (name, expect, f) in fns {
+        let mut reported = false;
+        for buf in all_vecs(alpha, maxlen) {
+            for i in 0..=maxlen {
+                for j in i..=maxlen {
+                    for k in 0..=maxlen {
+                        for l in k..=maxlen {
+                            let (a, b) = (&buf[i..j], &buf[k..l]);
+                            if a.is_empty() && b.is_empty() {
+                                continue;
+                            }
+                            let got = f(a, b);
+                            let problem = if a.len() != b.len() {
+                                st.mismatch_pairs += 1;
+                                match got {
+                                    Res::Val(v) => Some(format!("lengths {} and {} (sub-slices {}..{} and {}..{} of one buffer): returns {} instead of reporting the mismatch", a.len(), b.len(), i, j, k, l, v)),
+                                    _ => None,
+                                }
+                            } else {
+                                st.pairs += 1;
+                                let count = a.iter().zip(b.iter()).filter(|(x, y)| x == y).count();
+                                let want = expect(count, a.len());
+                                if got != Res::Val(want) {
+                                    Some(format!("sub-slices {}..{} and {}..{} of {:?}: returns {:?}, expected {}/{}", i, j, k, l, buf, got, count, a.len()))
+                                } else {
+                                    None
+                                }
+                            };
+                            if let Some(pb) = problem {
+                                if !reported {
+                                    reported = true;
+                                    ctx.violation(
+                                        &format!("aliased:{}:{}", name, tname),
+                                        &format!("{}<{}> on aliased arguments: {}", name, tname, pb),
+                                        json!({"kind": "aliased", "fn": name, "type": tname}),
+                                    );
+                                }
+                            }
+                        }
+                    }
+                }
+            }
+        }
+    }
+}
+
+fn res_of<R: Into<f64>, E>(r: Result<Result<R, E>, String>) -> Res {
+    match r {
+        Ok(Ok(v)) => Res::Val(v.into()),
+        Ok(Err(_)) => Res::Err,
+        Err(_) => Res::Panic,
+    }
+}
+
+fn aliased_generic<T: Copy + PartialEq + Debug + RefUnwindSafe>(ctx: &Ctx, tname: &str, alpha: &[T], st: &mut CStats) {
+    let fns: Vec<(&'static str, fn(usize, usize) -> f64, Box<dyn Fn(&[T], &[T]) -> Res>)> = vec![
+        ("jaccard::compute_probminhash_jaccard", exp_f64, Box::new(|a: &[T], b: &[T]| res_of(guarded(|| Ok::<f64, ()>(jaccard::compute_probminhash_jaccard(a, b)))))),
+        ("jaccard::get_jaccard_index_estimate", exp_f64, Box::new(|a: &[T], b: &[T]| res_of(guarded(|| jaccard::get_jaccard_index_estimate(a, b))))),
+    ];
+    check_aliased(ctx, tname, alpha, &fns, 4, st);
+}
+
+fn aliased_float<F: num::Float + Debug + Into<f64> + RefUnwindSafe>(ctx: &Ctx, tname: &str, alpha: &[F], exp: fn(usize, usize) -> f64, st: &mut CStats) {
+    let fns: Vec<(&'static str, fn(usize, usize) -> f64, Box<dyn Fn(&[F], &[F]) -> Res>)> = vec![
+        ("superminhasher::compute_superminhash_jaccard", exp, Box::new(|a: &[F], b: &[F]| res_of(guarded(|| superminhasher::compute_superminhash_jaccard(a, b))))),
+        ("superminhasher::get_jaccard_index_estimate", exp, Box::new(|a: &[F], b: &[F]| res_of(guarded(|| superminhasher::get_jaccard_index_estimate(a, b))))),
+    ];
+    check_aliased(ctx, tname, alpha, &fns, 4, st);
+}
+
+/// SuperMinHash::get_jaccard_index_estimate against sub-slices of the sketcher's own sketch
+fn aliased_method(ctx: &Ctx, st: &mut CStats) {
+    for m in 1..=5usize {
+        let mut sk = SuperMinHash::<f64, u64, FnvHasher>::new(m, BuildHasherDefault::<FnvHasher>::default());
+        for i in 0..3u64 {
+            sk.sketch(&i).unwrap();
+        }
+        for i in 0..=m {
+            for j in i..=m {
+                let own = sk.get_hsketch();
+                let r = guarded(|| sk.get_jaccard_index_estimate(&own[i..j]));
+                let whole = i == 0 && j == m;
+                let ok = match &r {
+                    Ok(Ok(v)) => whole && *v == 1.0,
+                    Ok(Err(_)) | Err(_) => !whole,
+                };
+                if whole {
+                    st.pairs += 1;
+                } else {
+                    st.mismatch_pairs += 1;
+                }
+                if !ok {
+                    ctx.violation(
+                        "aliased:SuperMinHash::get_jaccard_index_estimate",
+                        &format!("SuperMinHash::get_jaccard_index_estimate(m={}) against the sub-slice {}..{} of its own sketch: {:?}", m, i, j, r.map(|x| x.map_err(|e| e.to_string()))),
+                        json!({"kind": "aliased", "fn": "method", "m": m}),
+                    );
+                    return;
+                }
+            }
+        }
+    }
+}
+
 /// the estimator methods of the sketcher structs, against the sketch they hold
 fn check_methods(ctx: &Ctx, st: &mut CStats) {
     for m in 1..=5usize {
@@ -461,6 +569,12 @@ pub fn run(ctx: &Ctx) -> i32 {
     check_counting::<f32>(ctx, "f32", &fa32, &float_fns::<f32>(exp_f32), maxlen, &mut st);
     check_counting::<f64>(ctx, "f64", &fa64, &float_fns::<f64>(exp_f64), maxlen, &mut st);
     check_methods(ctx, &mut st);
+    aliased_generic::<u16>(ctx, "u16", &[0, 7, u16::MAX], &mut st);
+    aliased_generic::<u64>(ctx, "u64", &[0, 7, u64::MAX], &mut st);
+    aliased_generic::<f64>(ctx, "f64", &fa64[..3], &mut st);
+    aliased_float::<f32>(ctx, "f32", &fa32[..3], exp_f32, &mut st);
+    aliased_float::<f64>(ctx, "f64", &fa64[..3], exp_f64, &mut st);
+    aliased_method(ctx, &mut st);
     let mut ms = MStats::default();
     mle_register_pairs(ctx, &mut ms);
     mle_real_sketches(ctx, &mut ms);
@@ -495,7 +609,7 @@ pub fn run(ctx: &Ctx) -> i32 {
         "exhaustive": true,
         "evaluations": st.pairs + st.mismatch_pairs + ms.calls,
         "distinct_nontrivial": st.distinct_values.len() + ms.distinct.len(),
-        "rule": "counting: every ordered pair of sketches of length 1..5 over a 3-letter alphabet (4 letters for floats: two of them one ulp apart), for each of the 6 free functions and 2 methods and each element type (u16,u32,u64,usize,f32,f64), oracle count/len computed independently, symmetry, 1 on identical, plus all length pairs la!=lb<=5; MLE: every ordered pair of register vectors over {100,101,102,110}^m and {0,1,log_b 1e3,log_b 1e6}^m (m<=3 quick, 4 thorough) for b in {1.001,1.2,2} and all ordered pairs of real sketches of a 15-set family (nested, disjoint, identical, 30 vs 20000, singletons, empty); distinct = distinct returned values",
+        "rule": "counting: every ordered pair of sketches of length 1..5 over a 3-letter alphabet (4 letters for floats: two of them one ulp apart), for each of the 6 free functions and 2 methods and each element type (u16,u32,u64,usize,f32,f64), oracle count/len computed independently, symmetry, 1 on identical, plus all length pairs la!=lb<=5, plus the slice-taking functions on every pair of sub-slices (i..j, k..l) of one buffer of length 4 (aliased arguments, equal or different lengths) and the SuperMinHash method against sub-slices of its own sketch; MLE: every ordered pair of register vectors over {100,101,102,110}^m and {0,1,log_b 1e3,log_b 1e6}^m (m<=3 quick, 4 thorough) for b in {1.001,1.2,2} and all ordered pairs of real sketches of a 15-set family (nested, disjoint, identical, 30 vs 20000, singletons, empty); distinct = distinct returned values",
         "counting_pairs": st.pairs,
         "length_mismatch_pairs": st.mismatch_pairs,
         "mle_calls": ms.calls,
